@@ -980,6 +980,7 @@ class EKF:
         self.mag: np.ndarray = mag
         self.frequency: float = frequency
         self.frame: str = frame                          # Local tangent plane coordinate frame
+        self._marg: bool = mag is not None               # Measurement model includes the magnetometer
         self.Dt: float = kwargs.get('Dt', (1.0/self.frequency) if self.frequency else 0.01)
         self.q0: np.ndarray = kwargs.get('q0')
         self.P: np.ndarray = kwargs.get('P', np.identity(4))    # Initial state covariance
@@ -1238,7 +1239,7 @@ class EKF:
             Expected Measurements.
         """
         C = Quaternion(q).to_DCM().T
-        if self.mag is None:
+        if not self._marg:
             return C @ self.a_ref
         return np.r_[C @ self.a_ref, C @ self.m_ref]
 
@@ -1305,7 +1306,7 @@ class EKF:
         if mode.lower() == 'refactored':
             t = skew(self.a_ref)@q[1:]
             H = np.c_[t, q[1:]*self.a_ref*np.identity(3) + skew(t + qw*self.a_ref) - np.outer(self.a_ref, q[1:])]
-            if self.mag is not None:
+            if self._marg:
                 t = skew(self.m_ref)@q[1:]
                 H_2 = np.c_[t, q[1:]*self.m_ref*np.identity(3) + skew(t + qw*self.m_ref) - np.outer(self.m_ref, q[1:])]
                 H = np.vstack((H, H_2))
@@ -1314,7 +1315,7 @@ class EKF:
         H = np.array([[ v[0]*qw + v[1]*qz - v[2]*qy, v[0]*qx + v[1]*qy + v[2]*qz, -v[0]*qy + v[1]*qx - v[2]*qw, -v[0]*qz + v[1]*qw + v[2]*qx],
                       [-v[0]*qz + v[1]*qw + v[2]*qx, v[0]*qy - v[1]*qx + v[2]*qw,  v[0]*qx + v[1]*qy + v[2]*qz, -v[0]*qw - v[1]*qz + v[2]*qy],
                       [ v[0]*qy - v[1]*qx + v[2]*qw, v[0]*qz - v[1]*qw - v[2]*qx,  v[0]*qw + v[1]*qz - v[2]*qy,  v[0]*qx + v[1]*qy + v[2]*qz]])
-        if self.mag is not None:
+        if self._marg:
             H_2 = np.array([[ v[3]*qw + v[4]*qz - v[5]*qy, v[3]*qx + v[4]*qy + v[5]*qz, -v[3]*qy + v[4]*qx - v[5]*qw, -v[3]*qz + v[4]*qw + v[5]*qx],
                             [-v[3]*qz + v[4]*qw + v[5]*qx, v[3]*qy - v[4]*qx + v[5]*qw,  v[3]*qx + v[4]*qy + v[5]*qz, -v[3]*qw - v[4]*qz + v[5]*qy],
                             [ v[3]*qy - v[4]*qx + v[5]*qw, v[3]*qz - v[4]*qw - v[5]*qx,  v[3]*qw + v[4]*qz - v[5]*qy,  v[3]*qx + v[4]*qy + v[5]*qz]])
@@ -1360,6 +1361,7 @@ class EKF:
             return q
         a /= a_norm
         z = np.copy(a)
+        self._marg = mag is not None            # The given sample decides the measurement model
         if mag is not None:
             m_norm = np.linalg.norm(mag)
             if m_norm == 0:
